@@ -412,7 +412,8 @@ def g_powi(r, i):
         n = r.randint(-9, 9)
     if r.random() < 0.25:
         z = eC(real(r, p, lo=-8, hi=8), real(r, p, lo=-8, hi=8))
-        return 'CR', 'mpc_pow_int', [z, eI(n), eI(p), eS(rnd)]
+        # large exponents go through exp(n log z): an elementary routine, not an exact one
+        return 'EL', 'mpc_pow_int', [z, eI(n), eI(p), eS(rnd)]
     return 'CR', 'mpf_pow_int', [eF(a), eI(n), eI(p), eS(rnd)]
 
 
@@ -821,11 +822,11 @@ def g_sp(r, i):
             a = Q.canon(0, r.randint(2, 60), 0)
         if r.random() < 0.15:
             a = Q.canon(r.randint(0, 1), r.randint(1, 300), r.choice([0, -1]))
-        return 'SP', f, [eF(a), eI(p), eS(rnd)]
+        return ('EL' if f == 'mpf_agm1' else 'SP'), f, [eF(a), eI(p), eS(rnd)]
     f = SP_CPLX[(i // 5) % len(SP_CPLX)]
     if p > 200:
         p = r.choice([53, 100, 200])
-    return 'SP', f, [eC(real(r, p, lo=-3, hi=5, special=0), real(r, p, lo=-3, hi=5, special=0)), eI(p), eS(rnd)]
+    return ('EL' if f == 'mpc_agm1' else 'SP'), f, [eC(real(r, p, lo=-3, hi=5, special=0), real(r, p, lo=-3, hi=5, special=0)), eI(p), eS(rnd)]
 
 
 def g_ctx(r, i):
@@ -877,7 +878,7 @@ def g_ctx(r, i):
         ys = [eF(G.raw_real(r, p, wild=False, special=0.01)) for _ in range(k)]
         return 'CR', 'X.ctx_' + name, [eL(xs), eL(ys), eI(p), eK({'absolute': r.random() < 0.2, 'squared': r.random() < 0.2} if name == 'fsum' else {})]
     if name == 'powi':
-        return 'CR', 'X.ctx_powi', [eF(real(r, p, lo=-6, hi=6)), eI(r.randint(-40, 40)), eI(p)]
+        return 'EL', 'X.ctx_powi', [eF(real(r, p, lo=-6, hi=6)), eI(r.randint(-40, 40)), eI(p)]
     if name == 'conv':
         return 'CR', 'X.ctx_conv', [eF(real(r, p, lo=-80, hi=80, special=0.03)), eI(p)]
     if name == 'mag':
@@ -888,7 +889,7 @@ def g_ctx(r, i):
         w = r.choice([eC(real(r, p, lo=-10, hi=10), real(r, p, lo=-10, hi=10)), eI(r.randint(-9, 9)), eD(0.5), ['PC', 1.0, -2.0]])
         if op == '**':
             w = eI(r.randint(-12, 12))
-        return ('CR' if op != 'sqrt' else 'EL'), 'X.ctx_cplx', [eS(op), z, w, eI(p)]
+        return ('CR' if op not in ('sqrt', '**') else 'EL'), 'X.ctx_cplx', [eS(op), z, w, eI(p)]
     if name == 'iv':
         op = r.choice(['+', '-', '*', '/', 'sqrt', 'exp', 'in', 'str'])
         return ('EL' if op == 'exp' else 'CR'), 'X.ctx_iv', [eS(op), interval(r, p, op == 'sqrt', -10, 10), interval(r, p, lo=-10, hi=10), eI(p)]
